@@ -143,4 +143,9 @@ TNext == TScenario \/ TFork \/ TBegin \/ TEnd \/ TJoin \/ TAccess \/ TCounters \
          \/ TSkip
 TSpec == TInit /\ [][TNext]_tvars
 NotAccepted == l <= NLog
+(* the same, for long traces: acceptance is announced by a printed line instead of by a violated invariant (TLC     *)
+(* prints the whole behaviour for the latter, which costs more than checking it)                                   *)
+TAccept == /\ l = NLog + 1 /\ PrintT(ToJson([accepted |-> NLog])) /\ l' = l + 1
+           /\ UNCHANGED <<vc, forkVC, endVC, last, relVC, shrVC, owner, scen>>
+TSpecAnnounce == TInit /\ [][TNext \/ TAccept]_tvars
 ===============================================================================
